@@ -155,18 +155,26 @@ theorem dims_pos {data : Bytes} (hok : frameOK data = true) :
       exact ⟨ff.wpos, ff.hpos⟩
 
 theorem accepted_facts {s : MuxState} (h : Accepted s) : AcceptedFacts s := by
-  unfold Accepted accepted metaOK at h
-  simp only [Bool.and_eq_true, decide_eq_true_eq, List.all_eq_true] at h
-  obtain ⟨⟨⟨⟨⟨h1, h2⟩, h3⟩, h4⟩, h5⟩, h6⟩ := h
+  unfold Accepted accepted at h
+  simp only [Bool.and_eq_true, decide_eq_true_eq, List.all_eq_true, Bool.or_eq_true, Bool.not_eq_true'] at h
+  obtain ⟨⟨h1, h2⟩, h3⟩ := h
   have vf := Webp.Proofs.MuxValidate.validate_facts h1
   have hok : ∀ f ∈ s.frames, frameOK f.data = true :=
     fun f hf => frameOK_of (h2 f hf) (vf.frames f hf).noAlphL
-  refine ⟨h1, hok, h3, h4, h5, h6, ?_⟩
   cases hx : needsVP8X s with
-  | true => simp only [if_true]; exact vf.area
+  | true =>
+    rw [hx] at h3
+    simp only [Bool.true_eq_false, false_or] at h3
+    exact ⟨h1, hok, h3, vf.icc, vf.exif, vf.xmp, by rw [if_pos hx]; exact vf.area⟩
   | false =>
-    simp only [Bool.false_eq_true, if_false]
     obtain ⟨f, st⟩ := simpleState h1 hx
+    have hfl := vf.flen f (by rw [st.frames]; exact List.mem_cons_self)
+    have hsz : exactRiffSize s ≤ 4294967286 := by
+      unfold exactRiffSize
+      simp only [hx, st.frames, Bool.false_eq_true, if_false, padLen]
+      omega
+    refine ⟨h1, hok, hsz, vf.icc, vf.exif, vf.xmp, ?_⟩
+    rw [if_neg (by rw [hx]; simp)]
     intro g hg
     rw [st.frames] at hg
     simp only [List.mem_singleton] at hg
